@@ -113,13 +113,20 @@ func classify(j *job) string {
 	return "mixed"
 }
 
+// regionOverride: set by the oracle for one violation whose region class is finer than classify(j)
+var regionOverride string
+
 func (ck *checker) violate(j *job, outcome, what string) {
-	key := kindName(j.b) + ":" + classify(j) + ":" + outcome
+	rc := classify(j)
+	if regionOverride != "" {
+		rc = regionOverride
+	}
+	key := kindName(j.b) + ":" + rc + ":" + outcome
 	if j.shape == "crcfix" && outcome != "panic" && outcome != "misread" {
 		// the damage was given a recomputed CRC-32C: reads verify the CRC, never H(data) = address, so
 		// the damaged record is accepted and processed -- wrong bytes / a changed address or root come
 		// back, or the (now arbitrary) snappy length header drives a huge allocation
-		key = kindName(j.b) + ":" + classify(j) + ":crc-repaired-accepted"
+		key = kindName(j.b) + ":" + rc + ":crc-repaired-accepted"
 	}
 	ck.e.Rep.Violate(key, fmt.Sprintf("%s [file kind %s, corruption %s in %s (%s)]", what, j.b.Kind, j.mut.String(), j.region, j.shape), caseOf(j))
 	ck.e.Rep.Hit("key:" + key)
@@ -138,6 +145,12 @@ func (ck *checker) oracle(j *job) string {
 			ck.violate(j, "hang", fmt.Sprintf("the read did not finish within %d s, also when re-run alone (op %s)", int(hangRecheck.Seconds()), j.diedOp))
 		default:
 			cls = "panic"
+			if j.diedOp == "getmanysub" && spansInBounds(j, j.diedA) {
+				// every span this batched read needs is non-empty and inside the data region: no size
+				// field is out of range for it, so the crash is NOT explained by the unchecked span table
+				regionOverride = "span-index-inbounds"
+				defer func() { regionOverride = "" }()
+			}
 			msg := ""
 			for _, o := range j.res.Ops {
 				if o.Op == "stderr" {
@@ -171,7 +184,11 @@ func (ck *checker) oracle(j *job) string {
 	for _, o := range j.res.Ops {
 		switch o.Class {
 		case "panic":
+			if o.Op == "getmanysub" && spansInBounds(j, o.A) {
+				regionOverride = "span-index-inbounds"
+			}
 			ck.violate(j, "panic", fmt.Sprintf("%s panicked at %s: %s", o.Op, o.Site, o.Msg))
+			regionOverride = ""
 			worse("panic")
 			continue
 		case "err":
@@ -198,7 +215,7 @@ func (ck *checker) oracle(j *job) string {
 			if o.Class == "ok" {
 				checkItem("get", query[o.A], o.Data)
 			}
-		case "hasmany", "getmany", "iter":
+		case "hasmany", "getmany", "getmanysub", "iter":
 			keys := make([]string, 0, len(o.Items))
 			for k := range o.Items {
 				keys = append(keys, k)
@@ -612,7 +629,7 @@ func (ck *checker) replay(p *pool, raw json.RawMessage) {
 		b.stored[c.Base.Addrs[i]] = c.Base.Datas[i]
 	}
 	b.lay = layoutFor(b)
-	j := &job{b: b, mut: c.Mut, extra: c.Extra, region: "replay", shape: c.Shape}
+	j := &job{b: b, mut: c.Mut, extra: c.Extra, region: "replay", shape: c.Shape, subsets: c.Subsets, subsetOnly: c.SubsetOnly}
 	if j.shape == "" {
 		j.shape = "multi"
 		if len(c.Mut.Subs) == 1 && c.Mut.Trunc < 0 {
